@@ -162,6 +162,47 @@ func runSideBySide(streams [][]byte, seed uint64) [][]handler.Message {
 	return out
 }
 
+// execLiveCase: a producer that waits until the handler has drained the input queue
+// (it is idle, blocked on an empty queue) at each of the given offsets and then sends
+// on at full speed into a queue of capacity InCap.
+func execLiveCase(c *child.Ctx, k streamCase, cj []byte, sig string) {
+	input := unhex(k.Input)
+	pause := map[int]bool{}
+	for _, o := range k.PauseAt {
+		pause[o] = true
+	}
+	in := make(chan byte, k.InCap)
+	out := make(chan handler.Message, 64)
+	h := handler.New(fixedStart, slog.LevelInfo)
+	go h.HandleMessages(in, out)
+	go func() {
+		for i, b := range input {
+			if pause[i] {
+				for spins := 0; len(in) > 0 && spins < 100000; spins++ {
+					runtime.Gosched()
+				}
+				time.Sleep(50 * time.Microsecond) // let the handler park on the empty queue
+			}
+			in <- b
+		}
+		close(in)
+	}()
+	var msgs []handler.Message
+	done := make(chan struct{})
+	go func() {
+		for m := range out {
+			msgs = append(msgs, m)
+			tick()
+		}
+		close(done)
+	}()
+	waitOrHang(done, caseWatchdog, "stream handler with a live source did not finish")
+	if why := compareSeq(msgs, k.Expect); why != "" {
+		c.Violate(sig, k.Note+" (input queue of "+fmt.Sprint(k.InCap)+" bytes): "+why, cj)
+	}
+	c.Count("live_source_runs", 1)
+}
+
 // execSideBySide: every stream handled next to the others must come out as it does
 // when it is handled alone.
 func execSideBySide(c *child.Ctx, k streamCase, cj []byte, sig string) [][]handler.Message {
@@ -781,6 +822,12 @@ func monC03(c *child.Ctx, replay json.RawMessage) {
 			}
 			return
 		}
+		if k.InCap > 0 && len(k.PauseAt) > 0 && k.StallMs == 0 {
+			for i := 0; i < 200 && c.NViolations() == 0; i++ {
+				execLiveCase(c, k, replay, "sequence-mismatch")
+			}
+			return
+		}
 		if k.StallMs > 0 {
 			execTimedCase(c, k, replay, "sequence-mismatch")
 			return
@@ -847,6 +894,32 @@ func monC03(c *child.Ctx, replay json.RawMessage) {
 		cj := c.BeginV(k)
 		execTimedCase(c, k, cj, "sequence-mismatch")
 		c.Eval(ref.Hash64(st.Bytes(), []byte(k.Note)), true)
+	}
+	// a live source with a deep input queue: the bytes arrive in bursts that begin at
+	// segment boundaries (after other data, before a frame) while the handler is idle
+	nlive := c.Share(c.Pick(1600, 32000))
+	for i := 0; i < nlive && c.NViolations() == 0; i++ {
+		var st gen.Stream
+		for len(st.Bytes()) < 2500 {
+			st = append(st, gen.CleanStream(r, gen.CleanOpts{MinFrames: 2, MaxFrames: 6})...)
+		}
+		input := st.Bytes()
+		k := streamCase{Input: hexs(input), Expect: toExp(st.ExpectedClean()), InCap: []int{1500, 2048, 4096, 8192}[r.Intn(4)], Note: "live source, deep input queue, bursts from segment boundaries"}
+		off := 0
+		for _, g := range st {
+			if g.Kind == "frame" && off > 0 {
+				k.PauseAt = append(k.PauseAt, off)
+			}
+			off += len(g.Bytes)
+		}
+		var cj []byte
+		if i%32 == 0 {
+			cj = c.BeginV(k)
+		} else {
+			cj, _ = json.Marshal(k)
+		}
+		execLiveCase(c, k, cj, "sequence-mismatch")
+		c.EvalN(1)
 	}
 	// several handlers at the same time, each on its own stream
 	nside := c.Share(c.Pick(400, 8000))
